@@ -216,6 +216,7 @@ pub fn run_c13(tier: Tier) -> i32 {
     let mut seen = std::collections::BTreeSet::new();
     for mut c in crate::props::engprops::covering_configs() {
         c.cw20 = true;
+        c.dec = 6; // native collateral exists with 6 decimals only
         if seen.insert(c.label()) {
             confs.push((c, tier.pick(2, 3)));
         }
